@@ -47,6 +47,8 @@ type Executor struct {
 	GlobalFacts   []*Term
 	Defs          map[string]*Term // definitional names (buffer contents) -> defining expression
 	LoopErrors    []string
+	NoAutoCut     bool
+	LoopCuts      map[string]int // loops cut by the unrolling bound (position -> paths dropped)
 	GhostHook     func(ex *Executor, fn *ssa.Function, args []Value, st *State, from int)
 	sentinels     []*Term
 	sentinelSeen  map[string]bool
@@ -63,6 +65,7 @@ type frame struct {
 	visits  map[*ssa.BasicBlock]int
 	bind    []Value // free variables
 	inLoop  map[*ssa.BasicBlock]bool
+	autoCut map[*ssa.BasicBlock]*cutSnap // loops without invariant generalised by havoc
 	iterPos map[ssa.Value]int
 	parent  *frame
 	names   map[string]cval
@@ -78,6 +81,12 @@ func (f *frame) clone() *frame {
 	n.visits = make(map[*ssa.BasicBlock]int, len(f.visits))
 	for k, v := range f.visits {
 		n.visits[k] = v
+	}
+	if f.autoCut != nil {
+		n.autoCut = make(map[*ssa.BasicBlock]*cutSnap, len(f.autoCut))
+		for k, v := range f.autoCut {
+			n.autoCut[k] = v
+		}
 	}
 	n.inLoop = make(map[*ssa.BasicBlock]bool, len(f.inLoop))
 	for k, v := range f.inLoop {
@@ -788,6 +797,35 @@ func (ex *Executor) run(st *State, fr *frame, out *[]callResult) {
 			st = last.St
 			continue
 		case ssa.Value:
+			if nx, ok := x.(*ssa.Next); ok {
+				if alts, ok := ex.nextAlternatives(st, fr, nx); ok {
+					for _, a := range alts[:len(alts)-1] {
+						st2 := st.Clone()
+						st2.Assume(a.Cond)
+						if st2.Infeasible() {
+							continue
+						}
+						fr2 := fr.clone()
+						if fr2.iterPos == nil {
+							fr2.iterPos = map[ssa.Value]int{}
+						}
+						fr2.iterPos[nx.Iter] = a.Pos
+						fr2.regs[x] = a.Val
+						ex.run(st2, fr2, out)
+					}
+					last := alts[len(alts)-1]
+					st.Assume(last.Cond)
+					if st.Infeasible() {
+						return
+					}
+					if fr.iterPos == nil {
+						fr.iterPos = map[ssa.Value]int{}
+					}
+					fr.iterPos[nx.Iter] = last.Pos
+					fr.regs[x] = last.Val
+					continue
+				}
+			}
 			v := ex.eval(st, fr, x)
 			fr.regs[x] = v
 			if len(ex.pendingPanics) > 0 {
@@ -812,11 +850,55 @@ func (ex *Executor) jump(st *State, fr *frame, b *ssa.BasicBlock) bool {
 	if lc := ex.loopContractFor(fr, b); lc != nil {
 		return ex.jumpLoopHeader(st, fr, from, b, lc)
 	}
-	fr.visits[b]++
-	if fr.visits[b] > ex.Unroll+1 && isLoopHeader(b) {
-		st.Bounded = true
-		st.Note("loop at %s cut after %d iterations (no invariant)", ex.pos(firstPos(b)), ex.Unroll)
+	if snap := fr.autoCut[b]; snap != nil {
+		// back edge of a loop that was generalised by havoc: the arbitrary state at
+		// the header already stands for every later iteration, provided the body
+		// changed nothing the havoc did not cover
+		if why := snap.escapes(st); why != "" {
+			ex.cutLoop(st, b, why)
+		}
 		return false
+	}
+	fr.visits[b]++
+	if fr.visits[b] > ex.Unroll+1 && isLoopHeader(b) && !ex.finiteRange(st, fr, b) {
+		if ex.NoAutoCut {
+			ex.cutLoop(st, b, "no invariant")
+			return false
+		}
+		// no invariant: cut with the invariant "true" - forget everything the
+		// loop may change and explore one more arbitrary iteration and the exit
+		ex.enterBlock(st, fr, from, b)
+		before := map[int]Value{}
+		for k, v := range st.Cells {
+			before[k] = v
+		}
+		uhBefore := map[string]*Term{}
+		for k, v := range st.UHeap {
+			uhBefore[k] = v
+		}
+		ex.havocLoop(st, fr, b)
+		snap := &cutSnap{trace: len(st.Trace), cells: map[int]Value{}, havocked: map[int]bool{}, overlay: map[string]Value{}, uheap: map[string]*Term{}, uhavocked: map[string]bool{}}
+		for k, v := range st.Cells {
+			snap.cells[k] = v
+			if before[k] != v {
+				snap.havocked[k] = true
+			}
+		}
+		for k, v := range st.Overlay {
+			snap.overlay[k] = v
+		}
+		for k, v := range st.UHeap {
+			snap.uheap[k] = v
+			if uhBefore[k] != v {
+				snap.uhavocked[k] = true
+			}
+		}
+		if fr.autoCut == nil {
+			fr.autoCut = map[*ssa.BasicBlock]*cutSnap{}
+		}
+		fr.autoCut[b] = snap
+		st.Note("loop at %s %s generalised by havoc (no invariant)", b.Parent().String(), ex.pos(firstPos(b)))
+		return !st.Infeasible()
 	}
 	ex.enterBlock(st, fr, from, b)
 	return true
@@ -976,4 +1058,65 @@ func (ex *Executor) rootArgs(st *State, fn *ssa.Function) (args []Value, bind []
 		params[fv.Name()] = cval{V: pv, T: el}
 	}
 	return
+}
+
+// finiteRange: the loop headed by b ranges over a locally built map whose
+// updates are all known; it runs at most once per update, so following it to
+// the end is a complete exploration, not an unrolling bound.
+func (ex *Executor) finiteRange(st *State, fr *frame, b *ssa.BasicBlock) bool {
+	for _, ins := range b.Instrs {
+		nx, ok := ins.(*ssa.Next)
+		if !ok || nx.IsString {
+			continue
+		}
+		it, _ := fr.regs[nx.Iter].(*RangeV)
+		if it == nil {
+			return false
+		}
+		md, _ := ex.mapData(st, it.X)
+		return md != nil && md.Base == nil && fr.visits[b] <= len(md.Upd)+2
+	}
+	return false
+}
+
+// cutSnap remembers the state right after a loop without invariant was
+// generalised, to detect body effects the generalisation does not cover.
+type cutSnap struct {
+	trace     int
+	cells     map[int]Value
+	havocked  map[int]bool
+	overlay   map[string]Value
+	uheap     map[string]*Term
+	uhavocked map[string]bool
+}
+
+func (c *cutSnap) escapes(st *State) string {
+	if len(st.Trace) != c.trace {
+		return "loop body emits events"
+	}
+	for k, v := range c.cells {
+		if st.Cells[k] != v && !c.havocked[k] {
+			return fmt.Sprintf("loop body changes memory cell %d through a callee or pointer", k)
+		}
+	}
+	for k, v := range st.Overlay {
+		if c.overlay[k] != v {
+			return "loop body writes to caller-visible memory " + k
+		}
+	}
+	for k, v := range st.UHeap {
+		if c.uheap[k] != v && !c.uhavocked[k] {
+			return "loop body changes the user record field " + k
+		}
+	}
+	return ""
+}
+
+func (ex *Executor) cutLoop(st *State, b *ssa.BasicBlock, why string) {
+	st.Bounded = true
+	st.Note("loop at %s cut after %d iterations (%s)", ex.pos(firstPos(b)), ex.Unroll, why)
+	if ex.LoopCuts == nil {
+		ex.LoopCuts = map[string]int{}
+	}
+	ex.LoopCuts[b.Parent().String()+"@"+ex.pos(firstPos(b))+" ("+why+")"]++
 }
